@@ -61,10 +61,59 @@ func addrRoots(v ssa.Value, seen map[ssa.Value]bool, out map[string]bool, depth 
 						rec(st.Val)
 					}
 				}
+			} else if fa, ok := x.X.(*ssa.FieldAddr); ok {
+				if al, ok := fa.X.(*ssa.Alloc); ok {
+					// a field of a local struct: the stores to that field that come before this load on every path; if
+					// there is none, the field still holds what a whole-struct copy (`clone := *orig`) put there
+					found := false
+					for _, r := range *al.Referrers() {
+						fa2, ok := r.(*ssa.FieldAddr)
+						if !ok || fa2.Field != fa.Field {
+							continue
+						}
+						for _, r2 := range *fa2.Referrers() {
+							st, ok := r2.(*ssa.Store)
+							if !ok || st.Addr != ssa.Value(fa2) {
+								continue
+							}
+							if (st.Block() == x.Block() && instrBefore(st, x)) || (st.Block() != x.Block() && st.Block().Dominates(x.Block())) {
+								found = true
+								rec(st.Val)
+							}
+						}
+					}
+					if !found {
+						for _, r := range *al.Referrers() {
+							if st, ok := r.(*ssa.Store); ok && st.Addr == ssa.Value(al) {
+								// the struct value stored: usually a load `*orig`
+								if ld, ok := st.Val.(*ssa.UnOp); ok && ld.Op == token.MUL {
+									rec(ld.X)
+								} else {
+									rec(st.Val)
+								}
+							}
+						}
+						if len(*al.Referrers()) == 0 {
+							out["alloc"] = true
+						}
+					}
+				} else {
+					rec(x.X)
+				}
 			} else {
 				rec(x.X)
 			}
 		}
+	case *ssa.TypeAssert:
+		rec(x.X)
+	case *ssa.MakeInterface:
+		rec(x.X)
+	case *ssa.Field:
+		rec(x.X)
+	case *ssa.Index:
+		rec(x.X)
+	case *ssa.Lookup:
+		rec(x.X)
 	case *ssa.Alloc:
 		out["alloc"] = true
 	case *ssa.Call:
@@ -82,6 +131,96 @@ func addrRoots(v ssa.Value, seen map[ssa.Value]bool, out map[string]bool, depth 
 	case *ssa.Const:
 		out["alloc"] = true
 	}
+}
+
+// localOf returns the local variable (Alloc) that an address is a field/element of, or nil.
+func localOf(v ssa.Value) *ssa.Alloc {
+	for depth := 0; depth < 8; depth++ {
+		switch x := v.(type) {
+		case *ssa.Alloc:
+			return x
+		case *ssa.FieldAddr:
+			v = x.X
+		case *ssa.IndexAddr:
+			v = x.X
+		default:
+			return nil
+		}
+	}
+	return nil
+}
+
+// readAfter reports whether some path from the store reaches a read of the local (a load of the whole variable, of one
+// of its fields, or its address escaping into a call or another store) before the whole variable is overwritten.
+func readAfter(st *ssa.Store, al *ssa.Alloc) bool {
+	isRead := func(in ssa.Instruction) bool {
+		switch x := in.(type) {
+		case *ssa.UnOp:
+			if x.Op == token.MUL && localOf(x.X) == al {
+				return true
+			}
+		case *ssa.Call:
+			for _, a := range x.Call.Args {
+				if localOf(a) == al {
+					return true
+				}
+			}
+		case *ssa.Store:
+			if localOf(x.Val) == al {
+				return true
+			}
+		case *ssa.MakeInterface:
+			if localOf(x.X) == al {
+				return true
+			}
+		case *ssa.MakeClosure:
+			for _, b := range x.Bindings {
+				if localOf(b) == al {
+					return true
+				}
+			}
+		case *ssa.Return:
+			for _, r := range x.Results {
+				if localOf(r) == al {
+					return true
+				}
+			}
+		}
+		return false
+	}
+	kills := func(in ssa.Instruction) bool {
+		s2, ok := in.(*ssa.Store)
+		return ok && s2.Addr == ssa.Value(al)
+	}
+	b := st.Block()
+	start := 0
+	for i, in := range b.Instrs {
+		if in == ssa.Instruction(st) {
+			start = i + 1
+		}
+	}
+	seen := map[*ssa.BasicBlock]bool{}
+	var walk func(b *ssa.BasicBlock, from int) bool
+	walk = func(b *ssa.BasicBlock, from int) bool {
+		for _, in := range b.Instrs[from:] {
+			if isRead(in) {
+				return true
+			}
+			if kills(in) {
+				return false
+			}
+		}
+		for _, s := range b.Succs {
+			if !seen[s] {
+				seen[s] = true
+				if walk(s, 0) {
+					return true
+				}
+			}
+		}
+		return false
+	}
+	return walk(b, start)
 }
 
 // fieldsInCone collects "Type.field" names read in the backward data cone of v.
@@ -398,6 +537,13 @@ func runUnguardedRules(p *Program, id string) ([]*Gen, []string) {
 					if !ok {
 						continue
 					}
+					if w := kv["when"]; w != "" {
+						// only stores whose value has this shape
+						st, isSt := in.(*ssa.Store)
+						if !isSt || !pathMatches(valuePath(st.Val), w) {
+							continue
+						}
+					}
 					n++
 					oname := fmt.Sprintf("%s.%s#%s:%s.%d", kv["in"], kv["func"], d.Kind, name, n)
 					if kv["func"] == "*" {
@@ -481,6 +627,51 @@ func runUnguardedRules(p *Program, id string) ([]*Gen, []string) {
 							if cone["param:"+vf] {
 								o.Pre = "sat"
 								o.Model = "the stored value " + valuePath(st.Val) + " is computed from parameter " + vf
+							}
+						}
+					}
+					// the written location must be memory allocated in this function (target-fresh=1): no root other than a
+					// local allocation
+					if kv["target-fresh"] != "" {
+						if st, isStore := in.(*ssa.Store); isStore {
+							roots := map[string]bool{}
+							addrRoots(st.Addr, map[ssa.Value]bool{}, roots, 0)
+							var bad []string
+							for r := range roots {
+								if r != "alloc" {
+									bad = append(bad, r)
+								}
+							}
+							sort.Strings(bad)
+							if len(bad) > 0 {
+								o.Pre = "sat"
+								o.Model = "the store writes " + valuePath(st.Addr) + ", memory that is not allocated here (reached from " + strings.Join(bad, ", ") + ")"
+							}
+						}
+					}
+					// a write to a local copy must be read afterwards (target-read-after=1): otherwise the write is lost (a pin
+					// set on a loop variable after the variable was copied out)
+					if kv["target-read-after"] != "" {
+						if st, isStore := in.(*ssa.Store); isStore {
+							if al := localOf(st.Addr); al != nil && !readAfter(st, al) {
+								o.Pre = "sat"
+								o.Model = "the store writes " + valuePath(st.Addr) + " of the local copy `" + al.Comment + "`, and no path from here reads that copy again before it is overwritten: the write is lost"
+							}
+						}
+					}
+					// required shape of the written location (targetpath=pat | pat)
+					if tp := kv["targetpath"]; tp != "" {
+						if st, isStore := in.(*ssa.Store); isStore {
+							got := valuePath(st.Addr)
+							okAny := false
+							for _, alt := range splitList(tp, "|") {
+								if pathMatches(got, alt) {
+									okAny = true
+								}
+							}
+							if !okAny {
+								o.Pre = "sat"
+								o.Model = "the store writes " + got + ", expected one of " + tp
 							}
 						}
 					}
